@@ -14,6 +14,12 @@ names   Name resolution / shadowing chains for ONE name, enumerated completely: 
         context and creates f3 there) | ctx (everything called inside the context) | method (f1 is a method of an object
         built at module level).  So every combination of local / parameter / enclosing cell / enclosing-enclosing cell /
         module global / builtin bindings of the same name occurs, for closures made outside and inside the context.
+sib     Sibling function objects made by ONE def / lambda (one code object, no closure) that differ only in their
+        default values: makers lamcomp ([lambda x, k=k: ... for k in ...] at module level), defloop (def in a module
+        level for loop), factory / factorylam (argument used only in the default expression), localcomp (the lambda
+        comprehension inside the traced function); default kinds pos (x, k=d) | kwonly (x, *, k=d) | both
+        (x, k=d, *, s=d * 10); 2 or 3 siblings; every call order (all permutations) x every subset of calls
+        overriding the default.
 loop    Functions created in loops / comprehensions reading the loop variable, called inside or after the loop
         (late binding), with and without the default-argument idiom.
 misc    A table of idioms: counters, accumulators via nonlocal, recursion (self / mutual / module level), higher-order
@@ -147,6 +153,47 @@ def names_cases():
                             yield case(key, defs, call, solo=(glob and name == "abs"))
 
 
+SIB_VALS = (2, 3, 5)
+SIB_KINDS = {
+    # kind: (parameter list with {d} = default expression, returned tuple, override argument text)
+    "pos": ("x, k={d}", "(x, k)", ", 9"),
+    "kwonly": ("x, *, k={d}", "(x, k)", ", k=9"),
+    "both": ("x, k={d}, *, s={d} * 10", "(x, k, s)", ", s=9"),
+}
+
+
+def _sib_maker(maker, kind, n):
+    """-> (module level source, body prefix of case(), name of the list)"""
+    params, ret, _ = SIB_KINDS[kind]
+    vals = repr(SIB_VALS[:n])
+    if maker == "lamcomp":
+        return f"fs__S__ = [lambda {params.format(d='d')}: {ret} for d in {vals}]\n", "", "fs__S__"
+    if maker == "defloop":
+        return (f"fs__S__ = []\nfor d__S__ in {vals}:\n    def g__S__({params.format(d='d__S__')}):\n        return {ret}\n"
+                f"    fs__S__.append(g__S__)\n"), "", "fs__S__"
+    if maker == "factory":
+        return (f"def mk__S__(n):\n    def g({params.format(d='(n + 1)')}):\n        return {ret}\n    return g\n"
+                f"fs__S__ = [mk__S__(n) for n in {vals}]\n"), "", "fs__S__"
+    if maker == "factorylam":
+        return (f"def mk__S__(n):\n    return lambda {params.format(d='(n + 1)')}: {ret}\n"
+                f"fs__S__ = [mk__S__(n) for n in {vals}]\n"), "", "fs__S__"
+    if maker == "localcomp":
+        return "", f"    fs = [lambda {params.format(d='d')}: {ret} for d in {vals}]\n", "fs"
+    raise ValueError(maker)
+
+
+def sib_cases():
+    for maker in ("lamcomp", "defloop", "factory", "factorylam", "localcomp"):
+        for kind, (_, _, over) in SIB_KINDS.items():
+            for n in (2, 3):
+                mod, pre, name = _sib_maker(maker, kind, n)
+                for order in itertools.permutations(range(n)):
+                    for ov in itertools.product((False, True), repeat=n):
+                        calls = ", ".join(f"{name}[{i}](1{over if o else ''})" for i, o in zip(order, ov))
+                        key = f"clo/sib/{maker}/{kind}/{n}/{''.join(map(str, order))}/{''.join('o' if o else 'd' for o in ov)}"
+                        yield case(key, mod + f"def case__S__():\n{pre}    return [{calls}]\n", "case__S__()")
+
+
 LOOP = {
     # name: body of case(); result returned
     "comp_lambda_after": "    fs = [lambda: i for i in range(3)]\n    return [f() for f in fs]\n",
@@ -227,6 +274,7 @@ MISC = {
 def cases(thorough):
     yield from scope_cases()
     yield from names_cases()
+    yield from sib_cases()
     for k, body in LOOP.items():
         yield case(f"clo/loop/{k}", f"def case__S__():\n{body}", "case__S__()")
     for k, body in MISC.items():
